@@ -1026,6 +1026,30 @@ class Folder:
             return out
         if isinstance(recv, Arr) and f.attr == "copy" and not args:
             return Arr(copy_nested(recv.data))
+        if isinstance(recv, Arr) and not self.symbolic and f.attr in ("ravel", "flatten") and not args:
+            return Arr(list(recv.flat()))
+        if isinstance(recv, Arr) and not self.symbolic and f.attr == "reshape" and args:
+            shp = list(args[0]) if len(args) == 1 and isinstance(args[0], (list, tuple)) else list(args)
+            flat = list(recv.flat())
+            if all(isinstance(x, int) and not isinstance(x, bool) for x in shp) and shp.count(-1) <= 1:
+                known = 1
+                for x in shp:
+                    if x != -1:
+                        known *= x
+                if -1 in shp:
+                    if known == 0 or len(flat) % known:
+                        raise Raised("ValueError")
+                    shp[shp.index(-1)] = len(flat) // known
+                    known = len(flat)
+                if known != len(flat):
+                    raise Raised("ValueError")
+
+                def build(vals, dims):
+                    if len(dims) == 1:
+                        return list(vals)
+                    step = len(vals) // dims[0] if dims[0] else 0
+                    return [build(vals[i * step:(i + 1) * step], dims[1:]) for i in range(dims[0])]
+                return Arr(build(flat, shp))
         if isinstance(recv, Arr) and f.attr == "tolist" and not args:
             return copy_nested(recv.data)
         if isinstance(recv, list) and f.attr == "copy":
@@ -1490,6 +1514,11 @@ class Folder:
         return t
 
     def c_np_prod(self, a, kw):
+        if not self.symbolic and kw.get("axis") == 0 and isinstance(a[0], (list, tuple)) and a[0] and all(isinstance(x, Arr) for x in a[0]) and len({x.shape for x in a[0]}) == 1:
+            acc = a[0][0]
+            for x in a[0][1:]:
+                acc = acc.zip(x, lambda u, v: _binop(ast.Mult(), u, v))
+            return acc
         seq = a[0].flat() if isinstance(a[0], Arr) else a[0]
         if self.symbolic and not (isinstance(seq, (list, tuple)) and all(is_num(x) or isinstance(x, float) for x in seq)):
             sy = Sym("np.prod", a, kw)   # symbolic operands: the product stays a term, as for every other numpy routine
@@ -1547,6 +1576,45 @@ class Folder:
         if not isinstance(x, list):
             raise Refuse("stacking of a non-array")
         return x
+
+    def c_np_ravel(self, a, kw):
+        if isinstance(a[0], Arr) and len(a) == 1 and not kw:
+            return Arr(list(a[0].flat()))
+        raise Refuse("np.ravel form")
+
+    def c_np_meshgrid(self, a, kw):
+        """Coordinate matrices of literal 1-d arrays, numpy's own definition ('xy' swaps the first two axes of the 'ij' result)."""
+        xs = [x.data if isinstance(x, Arr) else x for x in a]
+        if not xs or not all(isinstance(x, (list, tuple)) and all(not isinstance(e, (list, tuple)) for e in x) for x in xs):
+            raise Refuse("np.meshgrid of non-literal / non-1d operands")
+        idx = kw.get("indexing", "xy")
+        if idx not in ("xy", "ij") or set(kw) - {"indexing"}:
+            raise Refuse("np.meshgrid options")
+        n = len(xs)
+        order = list(range(n))
+        if idx == "xy" and n >= 2:
+            order[0], order[1] = 1, 0     # output axis 0 runs over the second input, axis 1 over the first
+        dims = [len(xs[k]) for k in order]
+
+        def build(k, pos, depth):
+            if depth == n:
+                return xs[k][pos[order.index(k)]]
+            return [build(k, pos + [i], depth + 1) for i in range(dims[depth])]
+        return [Arr(build(k, [], 0)) if n else Arr([]) for k in range(n)]
+
+    def c_np_stack(self, a, kw):
+        parts = a[0]
+        axis = kw.get("axis", a[1] if len(a) > 1 else 0)
+        if not isinstance(parts, (list, tuple)) or not parts or not all(isinstance(p_, Arr) for p_ in parts) or len({p_.shape for p_ in parts}) != 1:
+            raise Refuse("np.stack form")
+        nd = len(parts[0].shape)
+        if axis in (0, -(nd + 1)):
+            return Arr([copy_nested(p_.data) for p_ in parts])
+        if axis in (-1, nd):
+            def go(ds):
+                return [go([d[i] for d in ds]) for i in range(len(ds[0]))] if isinstance(ds[0], list) else list(ds)
+            return Arr(go([p_.data for p_ in parts]))
+        raise Refuse("np.stack axis")
 
     def c_np_vstack(self, a, kw):
         parts = a[0]
